@@ -296,32 +296,10 @@ def r3(ctx):
 
 
 def r4(ctx):
-    """header first, footer on every normal exit"""
-    h = ctx.anchor_hir(LSR)
-    order = list(walk_exprs(h))
-    hd = [c for c in order if c["k"] == "MCall" and c["m"] == "write_header"]
-    ft = [c for c in order if c["k"] == "MCall" and c["m"] == "write_footer"]
-    others = [c for c in order if c["k"] == "MCall" and c["m"] in ("write_row", "write_row_separator", "visit_dir")]
-    ok = len(hd) == 1 and len(ft) == 1 and all(order.index(hd[0]) < order.index(o) < order.index(ft[0]) for o in others)
-    if ok:
-        ok = not [t for t in guards_of(h, ft[0]) if t[0] in ("if", "loop", "closure") or (t[0] == "match" and t[3] == "Normal")]
-        ok = ok and not [t for t in guards_of(h, hd[0]) if t[0] in ("loop", "closure") or (t[0] == "if" and "write_header" not in render(t[1]))]
-    ctx.obligation(ok)
-    if not ok:
-        ctx.violation("framing/header-footer-order", ctx.where(LSR), "the header must be written before any row and the footer unconditionally after all of them")
-    # explicit returns before the footer are BrokenPipe stops only
-    n = 0
-    for x in order:
-        if x["k"] == "Ret" and not x.get("exp") and (not ft or order.index(x) < order.index(ft[0])):
-            if any(t[0] == "closure" for t in guards_of(h, x)):
-                continue    # returns from a closure, not from the function
-            n += 1
-            g = [render(t[1]) for t in guards_of(h, x) if t[0] == "if" and t[2]]
-            ok = any("BrokenPipe" in c for c in g)
-            ctx.obligation(ok)
-            if not ok:
-                ctx.violation("framing/early-return", ctx.where(LSR, x), "list_search_results returns before the footer for a reason other than a closed pipe (%s)" % g)
-    ctx.covered("header/footer placement and early returns of list_search_results", 2 + n, distinct_keys=["order", "returns:%d" % n])
+    """header first, rows, footer on every normal exit: the output phase of list_search_results evaluated on its scenario
+    table (rules/lsr.py: buffered drain, empty result, streamed, aggregate row, groups, failing output)"""
+    import lsr
+    lsr.output_phase(ctx)
 
 
 def r5(ctx):
@@ -417,21 +395,8 @@ def r5(ctx):
         ctx.violation("writer/select_formatter", ctx.where("output::select_formatter"), "each output format must select its own formatter")
     ctx.covered("flat separators, cell/row protocol, writer hooks, formatter selection", 3 + 2 + 1 + len(hooks) + 1,
                 distinct_keys=list(want) + list(hooks))
-    # every row path passes (name, value) pairs in select-list order
-    for fn in (CHECK_FILE, LSR):
-        h = ctx.anchor_hir(fn)
-        for c in walk_exprs(h):
-            if c["k"] == "MCall" and c["m"] == "push" and render(c["recv"]) == "items":
-                g = guards_of(h, c)
-                loops = [t[1] for t in g if t[0] == "loop"]
-                src = ""
-                for t in g:
-                    if t[0] == "match" and t[3] == "ForLoopDesugar" and "into_iter" in render(t[1]):
-                        src = render(t[1])
-                ok = "self.query.fields" in src
-                ctx.obligation(ok)
-                if not ok:
-                    ctx.violation("rows/select-list/%s" % short(fn, 1), ctx.where(fn, c), "a row's items are not produced by iterating the select list in order (%s)" % src)
+    # every row path passes (name, value) pairs in select-list order: decided by the evaluations of check_file (X-PIPELINE,
+    # row-items) and of the output phase (C09-R4, aggregate-row / groups)
 
 
 RULES = [
